@@ -35,6 +35,10 @@ CHECKS["C15"] = dict(level="model_checking", ref="DESIGN.md §5 C15, §9", thoro
    text="every text of the syntax families (all type terms up to weight 3 (4 thorough), rule headers, multi-rule documents, tab/CRLF and multi-byte-comment respellings) and every single-character deletion / probe insertion / truncation of the small documents, plus duplicate-rule documents, is a state; accepted texts are checked on every span reachable in the public AST (range, character boundaries, line, nesting in the parent, sibling order without overlap, identifier text, rule start), rejected texts on the reported Position (inside the input, character boundaries, non-inverted, line/column recomputed from the index)",
    note="invariant checking on the real parser; the only reference computations are line/column counting and span nesting",
    tech="bounded-exhaustive enumeration of documents and of their single-edit mutants, state invariants on the real parser output")
+CHECKS["C07"] = dict(level="model_checking", ref="DESIGN.md §5 C07, §9", thorough=True,
+   text="explicit-state enumeration of (syntactic position, literal spelling) states against independent reference decoders: every number spelling of length <= 5 (6 thorough) over a 12-character alphabet, boundary families around 2^32 / 2^63 / 2^64 and the f64 range in decimal, hex, binary and hex-float, in 20 positions (type, keys, range bounds, occurrence bounds, tag / simple-value numbers, control and generic arguments); every sequence of <= 3 (4) text escape building blocks (24 blocks incl. surrogate pairs of planes 1, 2, 16, lone surrogates, \\u{...} variants) in 6 positions; every sequence of <= 3 (4) hex / base64 / base64url building blocks incl. whitespace, comments and padding variants; the value stored in the AST is read at the hole and must equal the reference value, invalid or unrepresentable spellings must not be accepted as a literal",
+   note="trusts the reference decoders in mc/src/c07.rs (u128 integers, std's decimal-to-double on a re-assembled canonical spelling, exact hex floats, RFC 9682 escapes, RFC 4648); open questions (escapes in unprefixed byte strings, radix mantissas, non-zero base64 trailing bits, mixed alphabets) are don't-care",
+   tech="bounded-exhaustive enumeration of literal spellings x positions + reference decoder conformance")
 NA = {}
 def main():
     props=[json.loads(l)["id"] for l in open("/verif/properties.jsonl")]
